@@ -131,7 +131,7 @@ def checkObs (n : Nat) (ns : List String) (r : Ref) (seen : List Model) (o : Obs
   else if !(ns.all (fun x =>
       let a := ((o.uavail.find? (·.1 == x)).map (·.2)).getD false
       ((listersExact us r x).isEmpty || a) && (!(listersRelated us r seen x).isEmpty || !a))) then some "unified-available"
-  else if complete && !catalogueComplete us r (catOf o) then some "catalogue-complete"
+  else if complete && !catalogueComplete us r (catOf o) seen then some "catalogue-complete"
   else none
 
 structure Acc where
